@@ -24,19 +24,22 @@ from vlib.evm import Chain
 LEVEL = "proof"
 META = {
     "category": "proof",
-    "text": "Every checked-arithmetic template (+ - * / // % unary-minus, range clamps) that the legacy and Venom code "
-            "generators emit for all 64 integer types and decimal, with operands in variables or literal on either side "
-            "(including the literal-dependent special cases), is proved (Coq, all operand values) to return the "
-            "exact mathematical result when representable and to revert otherwise; the templates are re-exported "
-            "from /repo on every run and tied to the proved parametric models by kernel-checked equality over the "
-            "complete type family. The rest of the pipeline (ABI decode, optimiser passes, back ends) is covered by a "
-            "differential of probe contracts against the Coq spec under several configurations.",
+    "text": "Every template that the legacy and Venom code generators emit for checked arithmetic (+ - * / // % ** unary "
+            "minus; operands in variables or literal on either side, incl. the literal-dependent special cases), for "
+            "convert() between all word-sized types (8618 allowed pairs), for the range clamps of all word types and for "
+            "the unchecked operations (unsafe_*, pow_mod256, shifts, bit ops) is proved in Coq, for all operand values, "
+            "to return the exact mathematical result when representable and to revert otherwise (unchecked ops: to wrap "
+            "exactly modulo 2**bits). The templates are re-exported from /repo on every run by calling the real "
+            "generators, and tied to the proved parametric models by kernel-checked syntactic equality over the complete "
+            "finite families. The rest of the pipeline (ABI decode, optimiser passes, back ends) is covered by "
+            "differentials of probe contracts against the Coq spec under several configurations.",
     "level_note": "Trusted: Coq kernel + vm_compute; the exporter tools/vlib/c03_export.py (IRnode/Venom instruction -> "
                   "Coq term; validated per run by executing exported templates through the real back ends on pyrevm "
                   "against the Coq evaluators); Word256.v (EVM word semantics, tied to pyrevm by vlib.wordtie). "
                   "Literal-operand templates are tied for a finite literal set covering every literal-dependent branch "
-                  "(the theorems are parametric in the literal). Optimiser passes that later rewrite/delete checks "
-                  "are covered by the glue differential only.",
+                  "(theorems parametric in the literal); pow bounds are re-checked by the kernel for the exported literals "
+                  "and rely on C20's largest_power/base theorems otherwise. Conversions from Bytes/String and the "
+                  "optimiser passes that rewrite/delete checks are covered by the glue differential only.",
     "technique": "Coq proof over exported code-generator templates (O-tie) + differential correspondence",
 }
 
@@ -236,6 +239,16 @@ def probe_source(ty, with_lits):
     src.append(f"@external\ndef guards(x: {t}, y: {t}) -> {t}:\n    if x < {lit_src(ty, ga)}:\n        return y\n"
                f"    if x > {lit_src(ty, gb)}:\n        return y\n    return x - {lit_src(ty, ga - lo + 1)}\n")
     fns.append(("guards", "guards", 0, (ga, gb, ga - lo + 1)))
+    # the same guards written with the literal on the left (`A > x`, `B < x`), then a checked add
+    src.append(f"@external\ndef guardr(x: {t}, y: {t}) -> {t}:\n    if {lit_src(ty, ga)} > x:\n        return y\n"
+               f"    if {lit_src(ty, gb)} < x:\n        return y\n    return {lit_src(ty, hi - gb + 1)} + x\n")
+    fns.append(("guardr", "guard", 0, (ga, gb, hi - gb + 1)))
+    if not d:
+        # non-strict guards (`<=`, `>=`) then a checked doubling that overflows exactly above the guard boundary
+        gm = hi // 2 + 1
+        src.append(f"@external\ndef guardm(x: {t}, y: {t}) -> {t}:\n    if x <= {lit_src(ty, ga - 1)}:\n        return y\n"
+                   f"    if x >= {lit_src(ty, gm + 1)}:\n        return y\n    return x * 2\n")
+        fns.append(("guardm", "guardm", 0, (ga, gm, 2)))
     if with_lits:
         for li, v in enumerate(glue_lits(ty)):
             ls = lit_src(ty, v)
@@ -290,7 +303,7 @@ def glue_differential(ctx, tys, cfgs, size, with_lits=True):
             sels = {sig.split("(")[0]: int(h, 16).to_bytes(4, "big") for sig, h in out["method_identifiers"].items()}
             lo, hi = bounds(ty[0], ty[1])
             for fn, aop, sh, lit in fns:
-                if aop in ("guard", "guards"):
+                if aop in ("guard", "guards", "guardm"):
                     ga, gb, gc = lit
                     xs = sorted({v for v in (ga - 1, ga, ga + 1, gb - 1, gb, gb + 1, lo, hi, (ga + gb) // 2) if lo <= v <= hi})
                     cs = [(x, 1) for x in xs]
@@ -313,9 +326,10 @@ def glue_differential(ctx, tys, cfgs, size, with_lits=True):
                     spec = f"narrow_row {X.nty(*ty)} {X.zl(lo // 2)} {X.zl(hi // 2)} G{gi}"
                 elif aop == "APow":
                     spec = f"pspec_row {X.nty(*ty)} {sh} {X.zl(lit)} G{gi}"
-                elif aop in ("guard", "guards"):
+                elif aop in ("guard", "guards", "guardm"):
                     pl = "[" + "; ".join(f"({X.zl(x)}, {X.zl(y)})" for x, y in cs) + "]"
-                    spec = (f"guard_row {X.nty(*ty)} {'AAdd' if aop == 'guard' else 'ASub'} {X.zl(lit[0])} {X.zl(lit[1])} "
+                    gop = {"guard": "AAdd", "guards": "ASub", "guardm": "AMul"}[aop]
+                    spec = (f"guard_row {X.nty(*ty)} {gop} {X.zl(lit[0])} {X.zl(lit[1])} "
                             f"{X.zl(lit[2])} {pl}")
                 else:
                     spec = f"spec_row {X.nty(*ty)} {aop} {sh} {X.zl(lit)} G{gi}"
@@ -822,6 +836,14 @@ def choose_types(ctx, all_tys):
     return must + rnd.sample(rest, 4)
 
 
+class report_quick:
+    """view of a Ctx that answers like the quick tier (to reuse the seeded quick type selection in thorough)"""
+
+    def __init__(self, ctx):
+        self.tier = "quick"
+        self.rng = ctx.rng
+
+
 def quick_glue_configs():
     """both pipelines; venom at gas AND O3 (range-based check elimination); legacy unoptimised"""
     return [Config(False, "gas", "prague"), Config(True, "gas", "prague"),
@@ -1137,12 +1159,15 @@ def run(ctx):
     if ctx.tier == "quick":
         n, gfail = glue_differential(ctx, tys, quick_glue_configs(), 9)
     else:
-        # all 65 types under the covering configuration set, then the boundary types under every configuration
-        n, gfail = glue_differential(ctx, tys, configs("quick"), 12)
+        # all 65 types under the four most different pipelines, the boundary types under the covering configuration
+        # set (with literal / pow / guard probes), and 5 of them under every configuration (base probes only)
+        n, gfail = glue_differential(ctx, tys, quick_glue_configs(), 12)
+        qt = choose_types(report_quick(ctx), all_tys)
+        n1, gfail1 = glue_differential(ctx, qt, configs("quick"), 9)
         deep = [(32, False, False), (32, True, False), (16, True, False), (17, True, False), (21, True, True)]
-        n2, gfail2 = glue_differential(ctx, deep, configs("thorough"), 9)
-        n += n2
-        gfail += gfail2
+        n2, gfail2 = glue_differential(ctx, deep, configs("thorough"), 9, with_lits=False)
+        n += n1 + n2
+        gfail += gfail1 + gfail2
     total += n
     for f in gfail[:8]:
         found = True
